@@ -57,6 +57,7 @@ func init() {
 			"x Config.RootCAs {nil, harness CA, other CA} x CaPath {absent, harness CA, other CA, both, missing, garbage, empty, corrupt DER, key instead of certificate, directory} " +
 			"x key pair {absent, valid, cert missing, key missing, cert garbage, key garbage, key of another cert, cert path only, key path only} " +
 			"x certificate presented {right, other CA, wrong name, only the dialled IP, only a DNS name} x host {IPv4, IPv4:port, IPv6, [IPv6]:port} x control connection on/off x TLS 1.3/1.2 x authentication over TLS on/off; " +
+			"in half of the cells with verification on, no ServerName and good files a second node 10.0.0.2 / fd00::2 is discovered through system.peers and dialled after the first, presenting its own certificate (only SAN: its own address) or, in a third of those, the first node's (probes tls.two-nodes*); " +
 			"core table = 14 rows x chain trusted/untrusted x 5 certificates = 140 cells (probe tls.cell:*). " +
 			"Authentication half: class demanded {none, each of the 10 built-in approved classes, a class only on the caller's list, unknown, 4 near-misses of an approved class} x client {none, PasswordAuthenticator default list, custom list, custom list + one default, AuthProvider} x 7 credential pairs x control connection on/off (probe auth.cell:*). " +
 			"distinct = distinct canonical-log fingerprint; non-trivial = at least one non-default variant (tls.variant:* / auth.variant:* fault counters) and at least one completed session attempt",
@@ -108,9 +109,10 @@ func secPump[T any](k *kernel.Kernel, bound time.Duration, each func(), fn func(
 }
 
 type secConnObs struct {
-	mu   sync.Mutex
-	errs []error
-	n    int
+	mu    sync.Mutex
+	errs  []error
+	hosts []string // connect address of the host of errs[i]
+	n     int
 }
 
 func (o *secConnObs) ObserveConnect(c gocql.ObservedConnect) {
@@ -118,6 +120,11 @@ func (o *secConnObs) ObserveConnect(c gocql.ObservedConnect) {
 	o.n++
 	if c.Err != nil {
 		o.errs = append(o.errs, c.Err)
+		h := ""
+		if c.Host != nil {
+			h = c.Host.ConnectAddress().String()
+		}
+		o.hosts = append(o.hosts, h)
 	}
 	o.mu.Unlock()
 }
@@ -126,6 +133,19 @@ func (o *secConnObs) snapshot() (int, []error) {
 	o.mu.Lock()
 	defer o.mu.Unlock()
 	return o.n, append([]error(nil), o.errs...)
+}
+
+// errorsOf returns the errors of the failed dials to one host.
+func (o *secConnObs) errorsOf(host string) []error {
+	o.mu.Lock()
+	defer o.mu.Unlock()
+	var out []error
+	for i, e := range o.errs {
+		if o.hosts[i] == host {
+			out = append(out, e)
+		}
+	}
+	return out
 }
 
 // secBubbleGoroutines returns the stack blocks of the goroutines of the *current* bubble
@@ -349,6 +369,7 @@ func (ca *secCA) issue(cn string, serial int64, ips []net.IP, dns []string, clie
 
 type secTLSConn struct {
 	name        string
+	host        string // address of the node the connection was dialled to
 	handshook   bool
 	failed      bool
 	sni         string
@@ -368,6 +389,7 @@ type secTLSNode struct {
 	cl        *node.Cluster
 	hub       *simnet.PipeHub
 	cfg       *tls.Config
+	cfgs      map[string]*tls.Config // per node address, when nodes present different certificates
 	authClass string
 
 	mu    sync.Mutex
@@ -383,7 +405,7 @@ func newSecTLSNode(k *kernel.Kernel, cl *node.Cluster, cfg *tls.Config, authClas
 		if prev != nil {
 			prev(c)
 		}
-		sc := &secTLSConn{name: c.Name}
+		sc := &secTLSConn{name: c.Name, host: c.Host}
 		n.mu.Lock()
 		n.conns = append(n.conns, sc)
 		n.mu.Unlock()
@@ -404,7 +426,11 @@ func (n *secTLSNode) snapshot() []secTLSConn {
 
 func (n *secTLSNode) serve(p *simnet.Pipe, sc *secTLSConn) {
 	defer p.Close()
-	cfg := n.cfg.Clone()
+	cfg := n.cfg
+	if c := n.cfgs[sc.host]; c != nil {
+		cfg = c
+	}
+	cfg = cfg.Clone()
 	cfg.GetConfigForClient = func(chi *tls.ClientHelloInfo) (*tls.Config, error) {
 		n.mu.Lock()
 		sc.sni = chi.ServerName
@@ -452,7 +478,13 @@ func (n *secTLSNode) serve(p *simnet.Pipe, sc *secTLSConn) {
 			if err != nil {
 				panic(fmt.Sprintf("sec: cannot encode %s: %v", label, err))
 			}
-			n.k.Rec("tls %s recv s=%d %s -> %s", sc.name, rq.Header.Stream, node.Describe(rq), label)
+			if len(n.cfgs) > 0 && rq.Header.Opcode == cqlspec.OpQuery && strings.HasPrefix(rq.Query, "ECHO ") {
+				// which of two live nodes the round-robin policy picks depends on map iteration
+				// order inside the driver: keep the canonical log independent of it
+				n.k.Rec("tls (either node) recv %s -> %s", node.Describe(rq), label)
+			} else {
+				n.k.Rec("tls %s recv s=%d %s -> %s", sc.name, rq.Header.Stream, node.Describe(rq), label)
+			}
 			if _, err := tc.Write(out); err != nil {
 				return
 			}
@@ -506,11 +538,19 @@ func (n *secTLSNode) respond(sc *secTLSConn, rq *cqlspec.Request) (*cqlspec.Resp
 		v := rq.Header.Version
 		switch rq.Query {
 		case "SELECT * FROM system.local WHERE key='local'":
-			meta, rows := n.cl.LocalRows(v, n.cl.Hosts[0])
+			h := n.cl.HostByAddr(sc.host)
+			if h == nil {
+				h = n.cl.Hosts[0]
+			}
+			meta, rows := n.cl.LocalRows(v, h)
 			r.Op, r.Kind, r.Rows, r.RowData = cqlspec.OpResult, cqlspec.KindRows, meta, rows
 			return r, "ROWS(local)"
 		case "SELECT * FROM system.peers":
-			meta, rows := n.cl.PeerRows(v, nil)
+			var peers []node.PeerRow
+			if h := n.cl.HostByAddr(sc.host); h != nil {
+				peers = n.cl.PeersOf(h)
+			}
+			meta, rows := n.cl.PeerRows(v, peers)
 			r.Op, r.Kind, r.Rows, r.RowData = cqlspec.OpResult, cqlspec.KindRows, meta, rows
 			return r, "ROWS(peers)"
 		case "SELECT * FROM system.peers_v2":
@@ -566,7 +606,10 @@ func secTLS(e *Env) {
 	tls12 := tp.Chance(1, 4)
 	authTLS := tp.Chance(1, 6)
 	userCerts := cfgState != 0 && tp.Chance(1, 4)
+	twoDraw := tp.Chance(1, 2)
+	swapDraw := tp.Chance(1, 3)
 	if e.NoFaults {
+		swapDraw = false
 		certKind = 0
 		if caSel >= 2 {
 			caSel = 1
@@ -583,6 +626,22 @@ func secTLS(e *Env) {
 	}
 	cfgPresent := cfgState != 0
 	isv := cfgState == 2
+	// Two nodes, each presenting its own certificate (only SAN: its own address), the second
+	// discovered through system.peers and dialled after the first through the same dialer:
+	// decides "the name of the host being dialled" per dial. Only where it can matter
+	// (verification on, no explicit ServerName) and where nothing else is wrong (files good,
+	// the harness CA trusted), so that both nodes must be connected to.
+	twoNodes := twoDraw && ((!cfgPresent && ehv) || (cfgPresent && !(isv && !ehv))) && sn == 0 &&
+		caSel < secCaBadFrom && kpSel < secKPBadFrom && (caSel == 1 || caSel == 3 || rootSel == 1)
+	swapped := twoNodes && swapDraw // the second node presents the FIRST node's certificate
+	if twoNodes {
+		certKind = 3 // only the node's own IP
+		control = true
+		k.Fault("tls.variant:two-nodes")
+		if swapped {
+			k.Fault("tls.variant:two-nodes-swapped-cert")
+		}
+	}
 	for _, v := range []struct {
 		on   bool
 		name string
@@ -608,6 +667,10 @@ func secTLS(e *Env) {
 	k.Rec("cell config=%s ehv=%v servername=%s rootcas=%s capath=%s keypair=%s cert=%s host=%s control=%v tls12=%v auth=%v usercerts=%v",
 		secCfgNames[cfgState], ehv, secSNNames[sn], secRootNames[rootSel], secCaNames[caSel], secKPNames[kpSel], secCertNames[certKind],
 		secHostNames[hostForm], control, tls12, authTLS, userCerts)
+	if twoNodes {
+		k.Rec("cell two-nodes swapped=%v", swapped)
+		e.Note("twonodes", map[bool]string{false: "own-certs", true: "swapped"}[swapped])
+	}
 
 	// ---- addresses ----
 	v6 := hostForm >= 2
@@ -618,8 +681,19 @@ func secTLS(e *Env) {
 	hostArg := []string{"10.0.0.1", "10.0.0.1:9042", "fd00::1", "[fd00::1]:9042"}[hostForm]
 	hostIP := net.ParseIP(addr)
 
-	cl := node.NewCluster(k, 1)
+	addrB := "10.0.0.2"
+	if v6 {
+		addrB = "fd00::2"
+	}
+	nNodes := 1
+	if twoNodes {
+		nNodes = 2
+	}
+	cl := node.NewCluster(k, nNodes)
 	cl.Hosts[0].Addr = addr
+	if twoNodes {
+		cl.Hosts[1].Addr = addrB
+	}
 
 	// ---- certificates and files ----
 	ca1 := secNewCA("simsec CA 1", 1)
@@ -796,6 +870,14 @@ func secTLS(e *Env) {
 		authClass = "org.apache.cassandra.auth.PasswordAuthenticator"
 	}
 	tn := newSecTLSNode(k, cl, srvCfg, authClass)
+	if twoNodes {
+		cfgB := srvCfg.Clone()
+		if !swapped {
+			leafB := ca1.issue("node-b", 11, []net.IP{net.ParseIP(addrB)}, nil, false)
+			cfgB.Certificates = []tls.Certificate{leafB.tlsCert}
+		}
+		tn.cfgs = map[string]*tls.Config{addrB: cfgB}
+	}
 
 	// ---- the client ----
 	cfg := BaseConfig(cl, hostArg)
@@ -939,6 +1021,81 @@ func secTLS(e *Env) {
 				return
 			}
 			k.Probe("tls.auth-over-tls")
+		}
+		// ---- every node is verified against its own address ----
+		if twoNodes {
+			k.Probe("tls.two-nodes")
+			bState := func() (handshook bool, dialled bool) {
+				for _, c := range tn.snapshot() {
+					if c.host == addrB {
+						dialled = true
+						if c.handshook {
+							handshook = true
+						}
+					}
+				}
+				return
+			}
+			// the pool of the second node fills in the background: give it time. A
+			// refusal is final once the driver has seen it; an acceptance may still come.
+			wait := 10 * time.Second
+			if swapped {
+				wait = 2 * time.Second
+			}
+			deadline := time.Now().Add(wait)
+			for {
+				k.Quiesce()
+				hs, _ := bState()
+				if hs || (!swapped && len(obs.errorsOf(addrB)) > 0) || time.Now().After(deadline) {
+					break
+				}
+				time.Sleep(50 * time.Millisecond)
+			}
+			hs, dialledB := bState()
+			errsB := obs.errorsOf(addrB)
+			var certErrB, nameErrB bool
+			var firstB error
+			for _, de := range errsB {
+				if firstB == nil {
+					firstB = de
+				}
+				var cve *tls.CertificateVerificationError
+				if errors.As(de, &cve) {
+					certErrB = true
+				}
+				var he x509.HostnameError
+				if errors.As(de, &he) {
+					nameErrB = true
+				}
+			}
+			k.Rec("result two-nodes b-dialled=%v b-handshook=%v b-dialerrors=%d certerr=%v nameerr=%v", dialledB, hs, len(errsB), certErrB, nameErrB)
+			switch {
+			case swapped && hs:
+				k.Violate("C20", "C20/connected-without-verification", "%s: second node %s (discovered through system.peers, dialled after %s) presents the certificate of %s, whose only SAN is %s; verification is on and no ServerName is configured, so the name to verify is %s, yet the driver completed a TLS handshake with it",
+					desc, addrB, addr, addr, addr, addrB)
+				return
+			case swapped:
+				if !dialledB {
+					k.Violate("HARNESS", "sec/second-node-not-dialled", "%s: the driver never dialled the second node %s within %v", desc, addrB, wait)
+					return
+				}
+				k.Probe("tls.two-nodes:swapped-cert-refused")
+			case hs:
+				k.Probe("tls.two-nodes:b-verified-by-own-name")
+			case !dialledB:
+				k.Violate("HARNESS", "sec/second-node-not-dialled", "%s: the driver never dialled the second node %s within %v", desc, addrB, wait)
+				return
+			case certErrB && nameErrB:
+				k.Violate("C20", "C20/server-name-not-host", "%s: second node %s (discovered through system.peers, dialled after %s through the same session) presents a certificate from a trusted CA whose SAN is its own address %s; no ServerName is configured, so that is the name to verify, yet the certificate was refused for its name: %v",
+					desc, addrB, addr, addrB, firstB)
+				return
+			case certErrB:
+				k.Violate("C20", "C20/refused-valid-server", "%s: second node %s presents a certificate from a trusted CA valid for its own address, yet it was refused: %v", desc, addrB, firstB)
+				return
+			default:
+				k.Violate("HARNESS", "sec/second-node-not-connected", "%s: no established connection to the second node %s within %v and no certificate error (first dial error: %v)", desc, addrB, wait, firstB)
+				return
+			}
 		}
 		// ---- the session works ----
 		_, qerr, ok := secPump(k, 10*time.Second, nil, func() (struct{}, error) {
